@@ -24,7 +24,7 @@ SPEC = dict(
          'distinct_nontrivial counts distinct (width, bit order, polynomial) tables whose 256 entries were all judged - '
          'NOT the number of messages or calls (evaluations).',
     exhaustive={'quick': _EXH, 'thorough': _EXH},
-    require=['large-message-lengths', 'table-entry-msb-first', 'table-entry-lsb-first', 'table-reflection-relation',
+    require=['giant-message-at-once-vs-pieces', 'large-message-lengths', 'table-entry-msb-first', 'table-entry-lsb-first', 'table-reflection-relation',
              'crc-vs-bitwise-division-msb-first', 'crc-vs-bitwise-division-lsb-first', 'crc-vs-coefficient-long-division',
              'crc-reflection-relation',
              'crc-two-pieces-every-split', 'crc-three-pieces-every-split',
@@ -53,5 +53,8 @@ SPEC = dict(
                'ASan red zones detect over-reads past the end of a piece, reads before its start are only caught through the value',
     technique='exhaustive table sweep + structured/random message sweep with exact integer oracles, every-split-point re-feeding, '
               'exact-size heap blocks under ASan+UBSan',
+    # second configuration: one message of 2^32+37 bytes per routine, unsanitised build (two passes over 4 GiB take ~10 s each way)
+    configs=lambda tier: [dict(name='default'), dict(name='giant', harness=['h_crc_giant.c'], flavour='fast', nworkers=9)],
+    parallel_configs=2,
     workers={'quick': 8, 'thorough': 16},
 )
